@@ -327,6 +327,30 @@ def _pure(pid, tier):
         ev["violations"] = ev.get("violations", 0) + n_new
         json.dump(ev, open(ev_path, "w"), indent=1, sort_keys=True)
         rc = max(rc, rc2)
+    if pid == "C06":
+        # the consuming client itself: a real Subscriber process under long runs of message-less frames
+        from common import BIN, sh, tlc
+        work = Work("subflood")
+        try:
+            tr = work.path("trace-subflood.ndjson")
+            p = sh([os.path.join(BIN, "e2e"), "subflood", "--out", tr, "--frames", "60000" if tier == "quick" else "70000"], timeout=1200)
+            r = tlc("Trace_SubFlood", "Trace_SubFlood.cfg", work, workers=1, trace=tr, timeout=600)
+            if not r.ok:
+                raise ToolError("trace validation (Trace_SubFlood) did not complete:\n" + r.out[-2000:])
+            evs = [json.loads(x) for x in open(tr).read().split("\n") if x]
+        finally:
+            work.cleanup()
+        viols = [dict(v, kind="subflood:" + v["kind"]) for v in r.viol if pid in v["props"]]
+        rc2, n_new, hit = verdict(pid, viols, lambda v: write_replay(pid, v["kind"], {
+            "property": pid, "signature": v["kind"], "events": evs, "how": "harness/target/debug/e2e subflood --out <file> --frames 60000"}))
+        ev_path = os.path.join(os.path.dirname(os.path.dirname(os.path.abspath(__file__))), "evidence", pid + ".json")
+        ev = json.load(open(ev_path))
+        ev["coverage"]["consuming_client"] = {"runs": [e for e in evs if e["ev"] == "subflood"], "known_findings_hit": hit,
+                                              "what": "a real Subscriber in a child process, 60 000 buffered frames of each kind (empty batches, control frames, a mix), then a valid message"}
+        ev["coverage"]["traces_validated_against_impl"] = ev["coverage"].get("traces_validated_against_impl", 0) + 3
+        ev["violations"] = ev.get("violations", 0) + n_new
+        json.dump(ev, open(ev_path, "w"), indent=1, sort_keys=True)
+        rc = max(rc, rc2)
     if pid in ("C04", "C12"):
         # requestor handles across clones, connection losses and successors (RequestorLife.tla)
         import e2e_checks
